@@ -56,7 +56,7 @@ async fn run_case(c: Case, irr_port: u16) -> Value {
         "n": c.n, "fault_op": c.op, "fault_occ": c.occ, "fault_kind": c.kind.name(),
         "exit": run.exit, "timed_out": run.timed_out, "cpu_s": run.cpu_s, "wall_s": run.wall_s,
         "stderr_tail": clip(&run.stderr.lines().rev().take(6).collect::<Vec<_>>().join(" | "), 900),
-        "stderr_panic": run.stderr.lines().filter(|l| l.contains("panicked") || l.contains("ERROR")).take(4).collect::<Vec<_>>().join(" | "),
+        "stderr_errors": run.stderr.lines().filter(|l| l.contains("panicked") || l.contains("ERROR")).take(4).collect::<Vec<_>>().join(" | "),
         "log": e2e::log_json(&log), "unmodelled": unmodelled, "committed": committed,
     })
 }
@@ -222,10 +222,6 @@ pub fn run(cfg: &Cfg) -> i32 {
                 rep.sample(json!({"fault": "none", "loads": c.n, "ops": ops, "exit": r["exit"]}));
             }
             continue;
-        }
-        if std::env::var("VH_DEBUG").is_ok() && c.kind.name().contains("root") {
-            eprintln!("DEBUG {} {}#{} exit={:?} ops={:?}", c.kind.name(), c.op, c.occ, r["exit"], log.iter().map(|e| format!("{}:{}", e["op"].as_str().unwrap_or(""), e["reply"].as_str().unwrap_or(""))).collect::<Vec<_>>());
-            eprintln!("   stderr: {}", r["stderr_panic"].as_str().unwrap_or(""));
         }
         for (sig, detail) in check_trace(r) {
             rep.violation(&format!("{sig}:{}:{}", c.op, c.kind.name()), &detail, wit());
